@@ -41,7 +41,7 @@ pub struct K {
     pub batch_period: u64,
     pub unbonding: u64,
     pub subdenom: String,
-    /// 0: monitors [mon, mon2]; 1: three monitors in descending address order; 2: ascending
+    /// 0: monitors [mon, mon2]; 1: three monitors in descending address order; 2: ascending; 3: twelve monitors
     pub monitor_order: u8,
 }
 
@@ -239,6 +239,8 @@ pub fn monitors_of(k: &K) -> Vec<String> {
             three
         }
         2 => three,
+        // a large on-call team: twelve monitors (more than any page size or fixed scan bound)
+        3 => (1..=12).map(|i| if i == 1 { p20("mon") } else { p20(&format!("mon{i}")) }).collect(),
         _ => vec![p20("mon"), p20("mon2")],
     }
 }
